@@ -1,9 +1,9 @@
 package main
 
 import (
-	"go/types"
 	"fmt"
 	"go/token"
+	"go/types"
 	"strings"
 
 	"golang.org/x/tools/go/ssa"
@@ -33,7 +33,8 @@ func checkC09(p *Program, r *Report) {
 		"R3 the runner restores the result value it found, and replaces the saved error by a deferred call's error exactly when the saved one is nil or the return signal. " +
 		"R5 try: the catch block is control-dependent on an error of the try block, the catch variable is bound to that error in the try's scope before the error is cleared, finally lies on every exit on which the error cell can be nil, and an uncaught error leaves the handler unchanged. " +
 		"R7 throw always raises an error carrying the statement's position. R8 the run's error result is the error cell. " +
-		"(Arguments captured at the defer statement: C07.R6; nothing evaluated after a failure: C07.R3, shared analysis.)")
+		"R6 nothing runs after a failure: the error cell is provably nil at every evaluation event (the analysis of C07.R3). " +
+		"(Arguments captured at the defer statement: C07.R6.)")
 	r.Assume("texts of error messages and the behaviour of a blocked deferred callee are not decided; try catching break/continue/return is the known finding recorded under C08.R2")
 	m, err := buildVMModel(p)
 	if err != nil {
@@ -57,6 +58,40 @@ func checkC09(p *Program, r *Report) {
 		return
 	}
 
+	// R6: nothing runs after a failure: at every evaluation event the error cell is provably nil (the analysis C07.R3 uses,
+	// read here for what the property says about errors: a statement or operand that starts while an error is pending both runs
+	// after the failing point and can overwrite the error, which then never reaches a try)
+	{
+		evs := va
+		if evs == nil {
+			evs = buildEvalAnalysis(m)
+		}
+		nEv := 0
+		for _, fn := range m.funcsOnRecord() {
+			cnt := map[string]int{}
+			for _, e := range evs.events[fn] {
+				opnd := strings.Join(e.operands, "|")
+				key := fmt.Sprintf("%s|%s %s", funcName(fn), e.role, normIdx(opnd))
+				cnt[key]++
+				inst := key
+				if cnt[key] > 1 {
+					inst = fmt.Sprintf("%s #%d", key, cnt[key])
+				}
+				st := ea.before[fn][e.call]
+				if st == nil {
+					continue
+				}
+				nEv++
+				okNil := st.cell&^eNil == 0
+				if !okNil && strings.HasSuffix(opnd, ".(IdentExpr)") && e.role == "let" {
+					continue // write-back to a plain identifier: cannot fail, evaluates nothing
+				}
+				r.Check(okNil, "C09.R6", inst, p.Pos(e.call.Pos()), "the error cell is nil when this evaluation starts",
+					"this evaluation can start while the run already failed with "+ea.bitName(st.cell&^eNil)+": code runs after the failing point, and the pending error can be overwritten before any try sees it")
+			}
+		}
+		r.Floor("C09.R6", nEv, 95)
+	}
 	// R1
 	nRoots := 0
 	for _, fn := range m.funcsOnRecord() {
